@@ -12,7 +12,7 @@ trap 'git -C /repo worktree remove --force '$wt' 2>/dev/null; rm -rf '$wt EXIT
 cd $wt
 pkgs=""; placed=""
 IFS=',' read -ra pairs <<< "$files"
-for p in "${pairs[@]}"; do f="${p%%:*}"; d="${p##*:}"; cp "$src/$f" "$d/$f"; placed="$placed $d/$f"; pkgs="$pkgs ./$d"; done
+for p in "${pairs[@]}"; do f="${p%%:*}"; d="${p##*:}"; mkdir -p "$d"; cp "$src/$f" "$d/$f"; placed="$placed $d/$f"; pkgs="$pkgs ./$d"; done
 echo "[$id] demo without patch:"
 go test ${SEED_TEST_FLAGS:-} -timeout 300s -vet=off -count=1 -run "$re" $pkgs 2>&1 | tail -3
 without=${PIPESTATUS[0]}
